@@ -381,7 +381,9 @@ pub fn generate(tier: &str, seed: u64) -> Vec<String> {
     for k in 0..ncfg {
         let fam = (k % 7) as u64;
         let (cfg, prot, extra) = if fam < 4 || fam >= 5 { family_cfg(&mut rng, fam) } else { (gen_cfg(&mut rng, Some(k % 2 == 0)), "none".to_string(), String::new()) };
-        out.push(cfg.cfg_line("c15", "memory", true, false, &format!(" prot={}{}", prot, extra)));
+        // (every fifth case on a filesystem store: its ranged reads validate byte ranges through `ByteRange::is_valid`, the memory
+        // store has its own inline copy of that test)
+        out.push(cfg.cfg_line("c15", if k % 5 == 3 { "fs" } else { "memory" }, true, false, &format!(" prot={}{}", prot, extra)));
         // fill the whole array with non-fill data, then a few more writes
         let total: u64 = cfg.shape.iter().product();
         let xs: Vec<Vec<u8>> = (0..total).map(|_| { let mut e = gen_elem(&mut rng, &cfg); if e == cfg.fill.1 { if let Some(b) = e.first_mut() { if cfg.dtype.name == "bool" { *b ^= 1 } else { *b ^= 0x55 } } } e }).collect();
